@@ -178,6 +178,8 @@ Definition moved_vars (m : list (string * string)) (s : dset) : res (list dvar) 
   mapM (fun p => match find_var s (fst p) with Some v => Ok (rekey v (snd p)) | None => Err KeyError end)
        (filter (fun p => negb (String.eqb (fst p) (snd p))) m).
 Definition ds_rename_keys (m : list (string * string)) (s : dset) : dset * res unit :=
+  (* two variables cannot be renamed to the same key *)
+  if negb (nodupb String.eqb (map snd m)) then (s, Err ValueError) else
   if negb (forallb (fun p => match find_var s (fst p) with Some _ => true | None => false end) m) then (s, Err KeyError) else
   match moved_vars m s with
   | Err e => (s, Err e)
